@@ -50,7 +50,7 @@ func genC04(seed uint64, tier string) C04Cfg {
 	if r.Bool(0.35) {
 		c.Strategy = "acks-first"
 	}
-	c.Serial = r.Bool(0.6)
+	c.Serial = r.Bool(0.8)
 	c.Op = pickStr(r, []string{"keygen", "keygen", "sign", "both"})
 	if r.Bool(0.5) {
 		c.Late = r.Intn(n)
